@@ -3,6 +3,7 @@ import Ogorek.Encoder
 import Ogorek.Conv
 import Ogorek.Opcodes
 import Ogorek.Reflect
+import Ogorek.Pvm
 import Ogorek.Generated.IsPrint
 
 /-!
@@ -310,6 +311,21 @@ def handle (line : String) : String :=
       let f := withFault k (encodeTop ip { proto := p, su := su == "1" } none v)
       s!"{f.writes} {if f.injected then 1 else 0} {match f.err with | some e => e.render | none => "-"}"
     | _, _, _ => "BADCASE"
+  | "encfh" :: proto :: su :: rh :: k :: toks =>
+    match proto.toInt?, parseRefHook rh, k.toNat?, parseValue? toks with
+    | some p, some g, some k, some v =>
+      let f := withFault k (encodeTop ip { proto := p, su := su == "1" } g v)
+      s!"{f.writes} {if f.injected then 1 else 0} {match f.err with | some e => e.render | none => "-"}"
+    | _, _, _, _ => "BADCASE"
+  | ["pvm", hex] =>
+    match bytesOfHex? hex with
+    | some bs =>
+      match pvmLoad bs with
+      | (.ok v, st, rest) => "OK " ++ (pyResolve st.heap [] v).render ++ s!" {bs.length - rest.length}"
+      | (.error .exc, _, _) => "EXC"
+      | (.error .unmodelled, _, _) => "UNMODELLED"
+      | (.error .fuel, _, _) => "FUEL"
+    | none => "BADCASE"
   | "rt" :: proto :: cfg :: toks =>
     match proto.toInt?, parseCfg cfg, parseValue? toks with
     | some p, some c, some v =>
@@ -323,6 +339,7 @@ def handle (line : String) : String :=
     | some c, some inp => runConv (goCfg c) inp
     | _, _ => "BADCASE"
   | "dict" :: _ => runDict (line.drop 5).toString
+  | "dictz" :: _ => runDict (line.drop 6).toString      -- the zero-value Dict: empty
   | ["scan", proto, hex] =>
     match proto.toNat?, bytesOfHex? hex with
     | some p, some b =>
